@@ -592,12 +592,69 @@ def visible (cb : Bool) (evs : List HEv) : List HEv :=
 /-- `on_health_change` / `on_check_failed` are registered: only possible through `HealthCheckConfig::builder()` -/
 def cbOf (kv : Kv) : Bool := kv.str "via" "builder" = "cfg" && kv.nat "cb" 0 = 1
 
+/-! ## several wrappers
+
+A case may build `wrappers=<k>` wrappers (all with the header's configuration; with `via=cfg` from clones of ONE
+`HealthCheckConfig` value, `share=0`: from one value each). The specification: **a wrapper is a wrapper** — each has its
+own statuses, counters, periodic task and round-robin cursor; whatever is done to another wrapper, however it was
+configured, is for this one what `idle` is: time for its own tasks to run, nothing else. The model is therefore the
+family of `k` single-wrapper models, and an operation line is, for each of them, an operation of its own or `idle`. -/
+
+/-- one step of a family of wrappers: `f i` is what the step is for wrapper `i` -/
+def stepFam (cfg : Cfg) (f : Nat → Op) : Nat → List State → List State
+  | _, [] => []
+  | i, s :: tl => stepS cfg s (f i) :: stepFam cfg f (i + 1) tl
+
+/-- `k` wrappers with one configuration, after the steps `fs` -/
+def runFam (cfg : Cfg) (k : Nat) (fs : List (Nat → Op)) : List State :=
+  fs.foldl (fun ss f => stepFam cfg f 0 ss) (List.replicate k (init cfg))
+
+/-- the wrapper a `manual` / `probe` line is for (`w=<j>`, default 0) -/
+def targetOf (ws : List String) : Nat :=
+  match ws with
+  | "manual" :: rest => (parseKv rest).nat "w" 0
+  | "probe" :: rest => (parseKv rest).nat "w" 0
+  | _ => 0
+
+/-- the observed order of wrapper `i`'s completions: `@o=<serial>` (wrapper 0), `@o=<i>.<serial>` -/
+def orderFor (i : Nat) (ws : List String) : List Nat :=
+  ws.filterMap fun w =>
+    if w.startsWith "@o=" then
+      let v := (w.drop 3).toString
+      if i = 0 then v.toNat?
+      else match v.splitOn "." with
+        | [a, b] => if a.toNat? = some i then b.toNat? else none
+        | _ => none
+    else none
+
+/-- what the operation line `ws` is for wrapper `i` of `k`: time passes for every wrapper (each with the observed order
+of its own completions); any other line is an operation of the one wrapper it names and `idle` for the others; a line
+that names a wrapper that does not exist is answered `noop` (recorded with wrapper 0) -/
+def opFor (k i : Nat) (ws : List String) : Op :=
+  match ws with
+  | "adv" :: ms :: rest => .adv (ms.toNat?.getD 0) (orderFor i rest)
+  | _ =>
+    if targetOf ws < k then (if i = targetOf ws then parseOp ws else .idle)
+    else if i = 0 then .bad else .idle
+
+/-- a line of wrapper `i`: wrapper 0 as ever, the others prefixed `w<i> ` -/
+def tagEv (i : Nat) (e : Ev) : Ev := if i = 0 then e else .raw s!"w{i} {e.render}"
+
+/-- the events the wrappers recorded in one step, wrapper by wrapper -/
+def newEvs (cb : Bool) : Nat → List State → List State → List Ev
+  | i, s :: tl, s' :: tl' =>
+      (visible cb (s'.log.drop s.log.length)).map (fun e => tagEv i e.toEv) ++ newEvs cb (i + 1) tl tl'
+  | _, _, _ => []
+
+/-- number of wrappers of a case -/
+def wrappersOf (kv : Kv) : Nat := max 1 (kv.nat "wrappers" 1)
+
 def machine : Machine where
-  σ := Bool × Cfg × State
-  init kv := (cbOf kv, cfgOf kv, init (cfgOf kv))
-  step := fun (cb, cfg, s) ws =>
-    let s' := stepS cfg s (parseOp ws)
-    ((cb, cfg, s'), (visible cb (s'.log.drop s.log.length)).map HEv.toEv)
-  now := fun (_, _, s) => s.now
+  σ := Bool × Cfg × List State
+  init kv := (cbOf kv, cfgOf kv, List.replicate (wrappersOf kv) (init (cfgOf kv)))
+  step := fun (cb, cfg, ss) ws =>
+    let ss' := stepFam cfg (fun i => opFor ss.length i ws) 0 ss
+    ((cb, cfg, ss'), newEvs cb 0 ss ss')
+  now := fun (_, _, ss) => ((ss.head?).map (·.now)).getD 0
 
 end TR.Health
